@@ -16,4 +16,4 @@ n = len(rows)
 y = sum(1 for _, m in rows if m['check']['detected'] == 'yes')
 a = sum(1 for _, m in rows if m['check']['detected'] == 'after-strengthening')
 print()
-print('%d seeded changes: %d detected by the checks as first run, %d after strengthening the machinery, %d not detected.' % (n, y, a, n - y - a))
+print('%d seeded changes: %d detected by the checks as first run, %d after strengthening the machinery, %d not detected (%s).' % (n, y, a, n - y - a, ', '.join(nm for nm, m in rows if m['check']['detected'] not in ('yes', 'after-strengthening')) or 'none'))
